@@ -45,10 +45,20 @@ def install(w):
     ledgerblue.commTCP.getDongle = g
 
 
+# which manager the stack is that of: "Ledger" (USB HID transport), "TCP" (TCPSigner), "SGX"
+TRANSPORT = ["Ledger"]
+
+
 def stack(w, v1=False, pin=None, init=True):
-    """Real HSM2Dongle + real protocol object over world w."""
+    """Real HSM2Dongle (or its TCP / SGX variant) + real protocol object over world w."""
     install(w)
-    dongle = hd.HSM2Dongle(False)
+    if TRANSPORT[0] == "Ledger":
+        dongle = hd.HSM2Dongle(False)
+    elif TRANSPORT[0] == "TCP":
+        dongle = hdt.HSM2DongleTCP("h", 1, False)
+    else:
+        from sgx.hsm2dongle import HSM2DongleSGX
+        dongle = HSM2DongleSGX("h", 1, False)
     p = (HSM1ProtocolLedger if v1 else HSM2ProtocolLedger)(pin, dongle)
     if init:
         tried = w.conn + sum(1 for e in w.log if e[0] == "connect_fail")
